@@ -191,6 +191,87 @@ def inline_constants(trees, report):
             trees[rel].body = [s for s in trees[rel].body if s is not st]
 
 
+def inline_namespace_constants(trees, report):
+    """a class the reference does not have whose body is only `NAME = <immutable literal>` lines (a namespace of named
+    constants, plain or a `str` / `int`-mixin Enum) and that is only ever used as `<Class>.NAME` (or `.NAME.value`):
+    every such read is the literal; the class goes when nothing else refers to it"""
+    inv = load_inventory()
+    if inv is None:
+        return
+    ref_globals = inv.get("globals", {})
+    spaces = {}
+    for rel, tree in trees.items():
+        if rel not in ref_globals:
+            continue
+        known = set(ref_globals.get(rel, ()))
+        for st in tree.body:
+            if not isinstance(st, ast.ClassDef) or st.name in known or st.decorator_list or st.keywords:
+                continue
+            bases = [ast.unparse(b) for b in st.bases]
+            enum = bool(bases) and bases[-1] in ("Enum", "enum.Enum") and all(b in ("str", "int") for b in bases[:-1]) and len(bases) == 2
+            if bases and not enum and bases not in (["object"],):
+                continue
+            if bases and bases[-1] in ("StrEnum", "enum.StrEnum", "IntEnum", "enum.IntEnum"):
+                continue
+            consts, ok = {}, True
+            for x in st.body:
+                if isinstance(x, ast.Expr) and isinstance(x.value, ast.Constant):
+                    continue
+                if isinstance(x, ast.Pass):
+                    continue
+                if isinstance(x, ast.Assign) and len(x.targets) == 1 and isinstance(x.targets[0], ast.Name) and _immutable_literal(x.value) and not x.targets[0].id.startswith("__"):
+                    consts[x.targets[0].id] = x.value
+                    continue
+                if isinstance(x, ast.AnnAssign) and isinstance(x.target, ast.Name) and x.value is not None and _immutable_literal(x.value):
+                    consts[x.target.id] = x.value
+                    continue
+                ok = False
+            if ok and consts:
+                spaces[st.name] = (rel, st, consts, enum)
+    if not spaces:
+        return
+    for cname, (crel, cnode, consts, enum) in spaces.items():
+        # every reference to the class name in the package: <Class>.NAME loads only (and imports of the name)
+        uses_ok = True
+        sites = []
+        for rel, tree in trees.items():
+            pm = _parents(tree)
+            for n in ast.walk(tree):
+                if isinstance(n, ast.Name) and n.id == cname:
+                    par = pm.get(id(n))
+                    if isinstance(par, ast.Attribute) and par.value is n and isinstance(par.ctx, ast.Load) and par.attr in consts:
+                        gp = pm.get(id(par))
+                        if enum and isinstance(gp, ast.Attribute) and gp.value is par and gp.attr == "value":
+                            sites.append((rel, pm.get(id(gp)), gp, consts[par.attr]))
+                        elif enum and isinstance(gp, (ast.FormattedValue,)):
+                            uses_ok = False
+                        elif enum and isinstance(gp, ast.Call) and isinstance(gp.func, ast.Name) and gp.func.id in ("str", "repr", "format", "print"):
+                            uses_ok = False
+                        elif enum and isinstance(gp, ast.Compare) and any(isinstance(o, (ast.Is, ast.IsNot)) for o in gp.ops):
+                            uses_ok = False
+                        else:
+                            sites.append((rel, gp, par, consts[par.attr]))
+                    else:
+                        uses_ok = False
+                elif isinstance(n, ast.Attribute) and n.attr == cname:
+                    uses_ok = False
+        if not uses_ok or not sites:
+            continue
+        for rel, par, node, val in sites:
+            new = copy.deepcopy(val)
+            for x in ast.walk(new):
+                ast.copy_location(x, node)
+            _replace(par, node, new)
+            report.append(("inlined-namespace-constant", f"{rel}:{cname}"))
+        trees[crel].body = [s for s in trees[crel].body if s is not cnode]
+        for rel, tree in trees.items():
+            for n in list(ast.walk(tree)):
+                if isinstance(n, ast.ImportFrom):
+                    keep = [a for a in n.names if a.name != cname]
+                    if keep and len(keep) != len(n.names):
+                        n.names = keep
+
+
 def inline_class_constants(trees, report):
     """a class-level `NAME = <literal display>` that the reference does not have, is stored nowhere else and is read
     only as `self.NAME` / `cls.NAME` / `<Class>.NAME` (membership, lookup, .get/.items/...): the reads become the
